@@ -130,13 +130,15 @@ def check_case(case, stats=None):
     opts = make_opts(case.get("opts"))
     how, res, dt = call(src, opts, cap)
     if how == "hang":
-        again = [call(src, make_opts(case.get("opts")), cap)[0] for _ in range(2)]
-        if all(a == "hang" for a in again):
+        # a single cap hit may be machine load: try twice more and judge the first call that returns
+        for _ in range(2):
+            how, res, dt = call(src, make_opts(case.get("opts")), cap)
+            if how != "hang":
+                break
+        if how == "hang":
             raise Violation("C10:does-not-return-within-cap", {"cap_s": cap})
         if stats is not None:
-            stats.evaluations += 1
-            stats.discarded["inconclusive:cap-hit-not-reproducible"] += 1
-        return
+            stats.notes["cap-hit-not-reproducible"] += 1
     if stats is not None:
         stats.evaluations += 1
     if how == "raised":
